@@ -294,19 +294,19 @@ pub fn extra_stages(prop: &str, tier: Tier, seed: u64, _scratch: &Path) -> Extra
     let quick = tier == Tier::Quick;
     let scale: u64 = if quick { 1 } else { 40 };
     let scale = std::env::var("KSIM_MIRI_SCALE").ok().and_then(|s| s.parse().ok()).unwrap_or(scale);
-    let seg = |world: &'static str, n: u64| Segment { world, from: 0, to: n * scale, sweep: false, stride: 1, offset: 0 };
+    let seg = |world: &'static str, n: u64| Segment { world, from: 0, to: n * scale, sweep: false, stride: 1, offset: 0, light: false };
     let sweep_len = <crate::worlds::byvalue::ByValueWorld as World>::sweep_len();
     let stride = if quick { 3 } else { 1 };
     let swseg = |world: &'static str, quick_stride: u64| {
         let n = with_world!(world, W => <W as World>::sweep_len());
         let st = if quick { quick_stride } else { 1 };
-        Segment { world, from: 0, to: n, sweep: true, stride: st, offset: seed % st }
+        Segment { world, from: 0, to: n, sweep: true, stride: st, offset: seed % st, light: false }
     };
     // the fault-free exhaustion cells and the destructure! cells sit at the end of the sweep list and always run under Miri
     let n_destr = <crate::worlds::byvalue::ByValueWorld as World>::sweep_names().iter().filter(|n| n.starts_with("destructure/") || n.starts_with("exhaustion/")).count() as u64;
     let segments = vec![
-        Segment { world: "byvalue", from: 0, to: sweep_len - n_destr, sweep: true, stride, offset: seed % stride },
-        Segment { world: "byvalue", from: sweep_len - n_destr, to: sweep_len, sweep: true, stride: 1, offset: 0 },
+        Segment { world: "byvalue", from: 0, to: sweep_len - n_destr, sweep: true, stride, offset: seed % stride, light: quick },
+        Segment { world: "byvalue", from: sweep_len - n_destr, to: sweep_len, sweep: true, stride: 1, offset: 0, light: quick },
         // exhaustion sweeps of the iterator worlds (a seed-chosen fraction in quick, all cells in thorough)
         swseg("parser", 12), swseg("slices_u8", 4), swseg("slices_odd", 12), swseg("slices_big", 12), swseg("chars", 2), swseg("splits", 4),
         swseg("ranges_char", 16), swseg("ranges_u8", 32), swseg("ranges_i128", 32),
